@@ -77,6 +77,16 @@ Theorem C07_wrap_level :
                  (List.map BinInt.Z.of_N (Pipeline.line_widths cw o (PeanoNat.Nat.eqb k 0))))).
 Proof. exact (@wrap_first_fit_groups). Qed.
 
+(* the boolean the L2 layer runs on the implementation's groups (extracted) is Greedy *)
+From TW Require Import GreedyB.
+Theorem C07_checker_sound : forall (A : Type) (m : A -> Num.frag Num.NumZ) (lws : list (Num.T Num.NumZ)) (lines : list (list A)),
+  greedy_b Num.NumZ A m lws lines = true -> Greedy.Greedy A m lws lines.
+Proof. exact greedy_b_sound. Qed.
+Theorem C07_checker_complete : forall (A : Type) (m : A -> Num.frag Num.NumZ) (lws : list BinNums.Z) (lines : list (list A)),
+  Greedy.Greedy A m lws lines -> greedy_b Num.NumZ A m lws lines = true.
+Proof. exact greedy_b_complete. Qed.
+Print Assumptions C07_checker_sound.
+Print Assumptions C07_checker_complete.
 Print Assumptions C07_wrap_level.
 Print Assumptions C07_first_fit_greedy.
 Print Assumptions C07_greedy_unique.
